@@ -227,28 +227,32 @@ func c02Check(c C02Case) (r evid.Result) {
 			r.Violation = evid.Viol("C02/log-options", "query %s: ContainerLogs options %+v", query, o)
 			return r
 		}
-		since, err1 := strconv.ParseInt(o.Since, 10, 64)
-		until, err2 := strconv.ParseInt(o.Until, 10, 64)
-		if err1 != nil || err2 != nil {
+		// The options are read the way the client library and the daemon read them: seconds with
+		// an optional fraction that is scaled by its number of digits.
+		sinceT, err1 := fakedocker.WindowBound(o.Since)
+		untilT, err2 := fakedocker.WindowBound(o.Until)
+		if err1 != nil || err2 != nil || o.Since == "" || o.Until == "" {
 			r.Violation = evid.Viol("C02/window-format", "query %s: since=%q until=%q", query, o.Since, o.Until)
 			return r
 		}
+		since, until := sinceT.UnixNano(), untilT.UnixNano()
 		lo, hi := c.Params.Start, c.Params.End
 		if c.Metric {
 			lo, hi = c.Params.Start-c.OffsetNs-c.RangeNs, c.Params.End-c.OffsetNs
 		}
-		wantSince, wantUntil := lo/1e9, hi/1e9
+		floorSec := func(ns int64) int64 { return ns / 1e9 * 1e9 } // instants are positive
 		// The requested window must cover the needed interval truncated to seconds (never be
-		// narrower) ...
-		if since > wantSince || until < wantUntil {
-			r.Violation = evid.Viol("C02/window-too-narrow", "query %s over [%d, %d]: asked since=%d until=%d, need since<=%d until>=%d", query, c.Params.Start, c.Params.End, since, until, wantSince, wantUntil)
+		// narrower): it starts no later than the interval itself and ends no earlier than the
+		// whole second its end lies in ...
+		if since > lo || until < floorSec(hi) {
+			r.Violation = evid.Viol("C02/window-too-narrow", "query %s over [%d, %d]: asked since=%q until=%q, i.e. [%d, %d]; need since<=%d until>=%d", query, c.Params.Start, c.Params.End, o.Since, o.Until, since, until, lo, floorSec(hi))
 			return r
 		}
 		// ... and not be shifted or blown up: it stays within a minute of the needed interval
 		// (the instant-query lookback is 30s; asking for a second more on either side to be on
 		// the safe side is not a defect).
-		if since < wantSince-61 || until > wantUntil+61 {
-			r.Violation = evid.Viol("C02/window-shifted", "query %s over [%d, %d]: asked since=%d until=%d, need about since=%d until=%d", query, c.Params.Start, c.Params.End, since, until, wantSince, wantUntil)
+		if since < floorSec(lo)-61e9 || until > floorSec(hi)+61e9 {
+			r.Violation = evid.Viol("C02/window-shifted", "query %s over [%d, %d]: asked since=%q until=%q, need about since=%d until=%d", query, c.Params.Start, c.Params.End, o.Since, o.Until, floorSec(lo), floorSec(hi))
 			return r
 		}
 	}
@@ -441,8 +445,32 @@ func c02Gen(t *rapid.T) C02Case {
 		}
 		c.Sel = append(c.Sel, m)
 	}
+	// A value with a line break or blanks around it meets the patterns that "match anything":
+	// "." does not match a line break, and an anchored pattern has to cover the blanks too.
+	for _, ct := range c.Ctrs {
+		keys := make([]string, 0, len(ct.Labels))
+		for k := range ct.Labels {
+			keys = append(keys, k)
+		}
+		sort.Strings(keys) // draws must not depend on map order
+		for _, k := range keys {
+			v := ct.Labels[k]
+			if strings.ContainsAny(string(v), "\n\t ") && rapid.IntRange(0, 1).Draw(t, "any-pattern-on-odd-value") == 0 {
+				c.Sel = append(c.Sel, gen.Matcher{Label: model.KeyToLabel(k), Op: rapid.SampledFrom([]string{"=~", "!~"}).Draw(t, "any-op"),
+					Value: gen.BS(rapid.SampledFrom([]string{".+", ".*", ".", "web.?", "\\S+", "[^x]+", ".+|"}).Draw(t, "any-pattern"))})
+				break
+			}
+		}
+		if len(c.Sel) > 3 {
+			break
+		}
+	}
 	// Time range at nanosecond granularity between 2001 and 2200.
 	start := rapid.Int64Range(978307200, 7258118400-100000).Draw(t, "start-sec")*1e9 + rapid.Int64Range(0, 999999999).Draw(t, "start-ns")
+	if rapid.IntRange(0, 3).Draw(t, "start-small-fraction") == 0 {
+		// a fraction of a second whose decimal spelling starts with zeros, or is one digit long
+		start = start/1e9*1e9 + rapid.SampledFrom([]int64{1, 5, 42, 5000000, 99999999, 10000000, 500000000, 0}).Draw(t, "start-fraction")
+	}
 	span := rapid.SampledFrom([]int64{1, 999999999, 1e9, 1500000000, 60e9, 3600e9, 86400e9}).Draw(t, "span")
 	c.Params = model.Params{Start: start, End: start + span, Step: 1e9, Limit: -1}
 	c.Stage = rapid.SampledFrom([]string{"", "", "logfmt", "regexp", "label_format"}).Draw(t, "stage")
